@@ -7,6 +7,7 @@ import SynKitProofs.AutomorphismComponents
 import SynKitProofs.AutomorphismCoarser
 import SynKitProofs.ReactorLink
 import SynKitProofs.Props.C05
+import SynKitProofs.ReactorPartialLemmas
 /-!
 # C11 — automorphism groups and orbits are exact; the orbit estimate never separates an orbit;
 de-duplication returns a sub-list
@@ -25,7 +26,12 @@ distinct reactions") is a statement about `SynReactor` and is not provable from
 automorphism of the pattern (`dedup_merges_non_automorphic` below), see DESIGN §6 F11.  What holds
 for the de-duplication on its own is `dedup_sublist`, `dedup_nodup_sig`, `dedup_complete`, `dedup_id`.
 For the modelled reactor with the REPAIRED pruning (`pruneByAut`, draft fix 0015) the clause is proved:
-`C11.pruning_clause_model`, hence `C11.full_model`.
+`C11.pruning_clause_model`, hence `C11.full_model`.  The same clause for match lists that hold PARTIAL
+matches (`SynReactor(partial=True)`) and for the `max_group` fall-back, on the routine followed literally
+(`prunePartial`, `pruneWithCap`): `C11.prunePartial_sublist`, `C11.prunePartial_covers`,
+`C11.prunePartial_keeps_lacking`, `C11.prunePartial_total`, `C11.prunePartial_spec`,
+`C11.prunePartial_reaction_set`, `C11.pruneWithCap_spec`, `C11.prunePartial_no_error`,
+`C11.pruning_clause_partial_model` (section "partial matches" below).
 -/
 namespace SynKit.Aut
 open SynKit SynKit.Match
@@ -300,6 +306,218 @@ example : SynKit.Reactor.WFHost SynKit.ReactorLink.exSymHost ∧ SynKit.Reactor.
 example : ∀ m ∈ allMonos SynKit.Reactor.monoSel SynKit.ReactorLink.exSymHost (SynKit.Reactor.left SynKit.ReactorLink.exSymRule),
     IsMono SynKit.Reactor.monoSel SynKit.ReactorLink.exSymHost (SynKit.Reactor.left SynKit.ReactorLink.exSymRule) m :=
   fun m hm => (mem_allMonos _ _ _ (SynKit.Reactor.left_wf _ (by decide)) m).1 hm
+
+/-! ### The reactor clause for match lists with PARTIAL matches and for the `max_group` fall-back
+
+`SynReactor(partial=True)` hands the pruning the matches of `PartialMatcher`: dicts that may lack
+pattern nodes.  `prunePartial` / `pruneWithCap` (`SynKitModel/ReactorInv.lean`) follow
+`_prune_by_rule_automorphisms` literally on such lists.  What the code does with a match that lacks a
+pattern node: it builds NO key for it and passes it through (`if any(p not in m for p in keep):
+unique.append(m); continue`), so partial matches are never merged — neither with each other nor with
+total ones — and the pruning acts on the matches that cover the pattern only.  The theorems below say
+so, and that this never changes the set of reactions. -/
+section PartialPruning
+open SynKit.ReactorInv
+
+/-- **C11, reactor clause (partial matches), the kept matches are a sub-list of the raw matches in the
+original order** — nothing is invented, reordered or duplicated, partial matches included. -/
+theorem C11.prunePartial_sublist (keep : List Nat) (group ms r : List Mapping)
+    (h : prunePartial keep group ms = .ok r) : r.Sublist ms :=
+  prunePartial_sublist' keep group ms r h
+
+/-- **C11, reactor clause (partial matches), what is dropped is covered.**  Every raw match is kept, or
+a kept match `m'` is related to it by rule automorphisms as a partial map: `m ∘ σ₁ = m' ∘ σ₂` on the
+pattern nodes for listed `σ₁, σ₂` — undefined at the same pattern nodes (`domOn`: the two composites
+have the same domain, the pre-image of the domain of `m` under `σ₁`).  With the code as it is, a match
+is only ever dropped in favour of a match that covers the pattern, and covers it itself. -/
+theorem C11.prunePartial_covers (keep : List Nat) (group ms r : List Mapping)
+    (h : prunePartial keep group ms = .ok r) :
+    ∀ m ∈ ms, m ∈ r ∨ ∃ m' ∈ r, coversB keep m = true ∧ coversB keep m' = true ∧
+      ∃ σ₁ ∈ group, ∃ σ₂ ∈ group, (∀ p ∈ keep, pcomp m σ₁ p = pcomp m' σ₂ p) ∧ domOn keep m σ₁ = domOn keep m' σ₂ := by
+  intro m hm
+  rcases prunePartial_covers' keep group ms r h m hm with h1 | ⟨k, m', hm', hk, hk'⟩
+  · exact Or.inl h1
+  · obtain ⟨σ₁, h₁, σ₂, h₂, hpt⟩ := related_relatedP keep group m m' (same_key_related keep group m m' k hk hk')
+    exact Or.inr ⟨m', hm', (keyP_key keep group m k hk).1, (keyP_key keep group m' k hk').1,
+      σ₁, h₁, σ₂, h₂, hpt, domOn_congr keep m σ₁ m' σ₂ hpt⟩
+
+/-- **C11, reactor clause (partial matches), a match that lacks a pattern node is never pruned**: the
+matches that do not cover the pattern come back exactly — the same ones, as often, in the same order. -/
+theorem C11.prunePartial_keeps_lacking (keep : List Nat) (group ms r : List Mapping)
+    (h : prunePartial keep group ms = .ok r) :
+    r.filter (fun m => !coversB keep m) = ms.filter (fun m => !coversB keep m) ∧
+    ∀ m ∈ ms, coversB keep m = false → m ∈ r := by
+  have hf := prunePartial_lacking' keep group ms r h
+  refine ⟨hf, fun m hm hc => ?_⟩
+  have : m ∈ ms.filter (fun m => !coversB keep m) := List.mem_filter.2 ⟨hm, by rw [hc]; rfl⟩
+  rw [← hf] at this
+  exact (List.mem_filter.1 this).1
+
+/-- **C11, reactor clause (partial matches), on total matches the relation is the one of the total-map
+theorems.**  For a match that covers the pattern nodes and automorphisms that map pattern nodes to
+pattern nodes, "common partial image" (`RelatedP`) is "common image" (`Related`, the relation of
+`PruneSpec` / `pruneSpec_preserves_results`); the second match then covers the pattern too. -/
+theorem C11.prunePartial_total (keep : List Nat) (group : List Mapping)
+    (hg : ∀ σ ∈ group, ∀ p ∈ keep, ∃ q ∈ keep, Mapping.get? σ p = some q)
+    (m m' : Mapping) (hm : coversB keep m = true) :
+    RelatedP keep group m m' ↔ Related keep group m m' :=
+  ⟨relatedP_related keep group hg m m' hm, related_relatedP keep group m m'⟩
+
+/-- **C11, reactor clause (partial matches), the routine meets the specification the total-map
+theorems use** (`PruneSpec`: sub-list; every raw match kept or `Related` to a kept one) — on ANY list,
+partial matches included: those are kept. -/
+theorem C11.prunePartial_spec (keep : List Nat) (group ms r : List Mapping)
+    (h : prunePartial keep group ms = .ok r) : PruneSpec keep group ms r := by
+  refine ⟨prunePartial_sublist' keep group ms r h, fun m hm => ?_⟩
+  rcases prunePartial_covers' keep group ms r h m hm with h1 | ⟨k, m', hm', hk, hk'⟩
+  · exact Or.inl h1
+  · exact Or.inr ⟨m', hm', same_key_related keep group m m' k hk hk'⟩
+
+/-- **C11, reactor clause (partial matches): pruning never changes the set of distinct reactions.**
+Under the gluing hypothesis of the total-map theorem (`GlueAutInvariant`: composing a match with a
+listed rule automorphism does not change what it glues to), the reactions obtained from the kept
+matches and from all raw matches are the same set — for lists that hold partial matches too, and
+whatever a partial match glues to. -/
+theorem C11.prunePartial_reaction_set {R : Type} {E : R → R → Prop} (hE : Equivalence E) (glue : Mapping → List R)
+    (keep : List Nat) (group : List Mapping) (hinv : GlueAutInvariant E glue keep group)
+    (ms r : List Mapping) (h : prunePartial keep group ms = .ok r) :
+    SetEqMod E (resultsOf glue r) (resultsOf glue ms) :=
+  pruneSpec_preserves_results hE glue keep group hinv ms r (C11.prunePartial_spec keep group ms r h)
+
+/-- The same with the gluing hypothesis demanded only of the raw matches that cover the pattern (the
+form the concrete reactor provides: `concrete_glue_aut` speaks about matches of the prepared pattern). -/
+theorem C11.prunePartial_reaction_set_on {R : Type} {E : R → R → Prop} (hE : Equivalence E) (glue : Mapping → List R)
+    (keep : List Nat) (group : List Mapping) (ms r : List Mapping)
+    (hinv : ∀ σ ∈ group, ∀ m ∈ ms, coversB keep m = true → ∀ k, composeOn keep m σ = some k → SetEqMod E (glue k) (glue m))
+    (h : prunePartial keep group ms = .ok r) :
+    SetEqMod E (resultsOf glue r) (resultsOf glue ms) := by
+  have hsub := prunePartial_sublist' keep group ms r h
+  constructor
+  · apply SubsetMod.of_subset hE
+    intro x hx
+    obtain ⟨m, hm, hxm⟩ := List.mem_flatMap.1 hx
+    exact List.mem_flatMap.2 ⟨m, hsub.subset hm, hxm⟩
+  · apply SubsetMod.flatMap
+    intro m hm
+    rcases prunePartial_covers' keep group ms r h m hm with h1 | ⟨k, m', hm', hk, hk'⟩
+    · exact ⟨m, h1, SubsetMod.refl hE _⟩
+    · obtain ⟨σ₁, h₁, σ₂, h₂, i, e₁, e₂⟩ := same_key_related keep group m m' k hk hk'
+      exact ⟨m', hm', (SetEqMod.trans hE
+        (SetEqMod.symm (hinv σ₁ h₁ m hm (keyP_key keep group m k hk).1 i e₁))
+        (hinv σ₂ h₂ m' (hsub.subset hm') (keyP_key keep group m' k hk').1 i e₂)).1⟩
+
+/-- **C11, reactor clause, the `max_group` fall-back.**  With more listed automorphisms than `cap` the
+matches come back unchanged; otherwise the bound plays no role (`prunePartial`); in both cases the
+kept matches are a sub-list of the raw ones and — under `GlueAutInvariant` — give the same set of
+reactions. -/
+theorem C11.pruneWithCap_spec {R : Type} {E : R → R → Prop} (hE : Equivalence E) (glue : Mapping → List R)
+    (cap : Nat) (keep : List Nat) (group ms : List Mapping) :
+    (group.length > cap → pruneWithCap cap keep group ms = .ok ms) ∧
+    (¬ group.length > cap → pruneWithCap cap keep group ms = prunePartial keep group ms) ∧
+    (GlueAutInvariant E glue keep group → ∀ r, pruneWithCap cap keep group ms = .ok r →
+      r.Sublist ms ∧ SetEqMod E (resultsOf glue r) (resultsOf glue ms)) := by
+  rw [pruneWithCap_eq]
+  refine ⟨fun hc => by rw [if_pos hc], fun hc => by rw [if_neg hc], fun hinv r hr => ?_⟩
+  by_cases hc : group.length > cap
+  · rw [if_pos hc] at hr
+    simp only [PruneRes.ok.injEq] at hr
+    subst hr
+    exact ⟨List.Sublist.refl _, SetEqMod.refl hE _⟩
+  · rw [if_neg hc] at hr
+    exact ⟨C11.prunePartial_sublist keep group ms r hr, C11.prunePartial_reaction_set hE glue keep group hinv ms r hr⟩
+
+/-- **C11, reactor clause, no exception inside the pruning.**  When every listed automorphism maps
+pattern nodes to pattern nodes and the list is not empty (a group: it holds the identity), the routine
+returns a list — the `KeyError` / `ValueError` outcomes of the model are not reachable — whatever the
+matches, partial ones included, and whatever the bound. -/
+theorem C11.prunePartial_no_error (keep : List Nat) (group : List Mapping)
+    (hg : ∀ σ ∈ group, ∀ p ∈ keep, ∃ q ∈ keep, Mapping.get? σ p = some q) (hne : group ≠ [])
+    (cap : Nat) (ms : List Mapping) :
+    (∃ r, prunePartial keep group ms = .ok r) ∧ ∃ r, pruneWithCap cap keep group ms = .ok r := by
+  refine ⟨prunePartial_ok' keep group hg hne ms, ?_⟩
+  rw [pruneWithCap_eq]
+  by_cases hc : group.length > cap
+  · rw [if_pos hc]; exact ⟨ms, rfl⟩
+  · rw [if_neg hc]; exact prunePartial_ok' keep group hg hne ms
+
+/-- **C11, reactor clause for the modelled reactor, partial matches.**  For the modelled implicit path
+(`ReactorLink.concrete`), in either direction: pruning a list of matches with the routine followed
+literally — over the automorphisms of the oriented rule — never changes the set of reactions obtained
+(up to isomorphism of ITS graphs).  Only the matches that cover the prepared pattern have to be matches
+of it; the partial ones are arbitrary (they are kept, so nothing is asked of what they glue to). -/
+theorem C11.pruning_clause_partial_model (maxGroup : Nat) (comp : LGraph → LGraph → List Mapping)
+    (dir : Bool) (host T : LGraph) (ms r : List Mapping)
+    (hms : ∀ m ∈ ms, coversB (SynKit.Reactor.left (SynKit.ReactorLink.orient dir T)).ids m = true →
+      SynKit.Reactor.WFHost host → SynKit.Reactor.WFTemplate (SynKit.ReactorLink.orient dir T) →
+      IsMono SynKit.Reactor.monoSel host (SynKit.Reactor.left (SynKit.ReactorLink.orient dir T)) m)
+    (h : prunePartial (SynKit.Reactor.left (SynKit.ReactorLink.orient dir T)).ids
+      (auts SynKit.ReactorLink.itsSel (SynKit.ReactorLink.orient dir T)) ms = .ok r) :
+    SetEqMod SynKit.ReactorLink.ItsEquiv
+      (resultsOf ((SynKit.ReactorLink.concrete maxGroup comp).glue dir host T) r)
+      (resultsOf ((SynKit.ReactorLink.concrete maxGroup comp).glue dir host T) ms) :=
+  C11.prunePartial_reaction_set_on SynKit.ReactorLink.itsEquiv_equivalence _ _ _ ms r
+    (fun σ hσ m hm hc k hk => SynKit.ReactorLink.concrete_glue_aut maxGroup comp dir host T m σ k (hms m hm hc) hσ hk) h
+
+/-! #### non-vacuity: the C–H / C–H coupling centre
+
+`[C:1][H:2].[C:3][H:4]>>[C:1][C:3].[H:2][H:4]` with the hydrogens implicit: pattern nodes 1 and 3 (two
+one-atom components, so the partial matcher also returns the matches of ONE of them), rule
+automorphisms on the pattern: the identity and the swap 1 ↔ 3. -/
+
+def exKeep : List Nat := [1, 3]
+def exGroup : List Mapping := [[(1, 1), (3, 3)], [(1, 3), (3, 1)]]
+/-- two partial matches related by the swap, two total matches related by the swap, one more partial match -/
+def exMatches : List Mapping := [[(1, 10)], [(3, 10)], [(1, 10), (3, 11)], [(1, 11), (3, 10)], [(1, 12)]]
+
+/-- The routine on that list: the second total match is dropped, every partial match is kept — also
+`{3: 10}`, which the swap relates to `{1: 10}` as a partial map (`RelatedP`). -/
+example : prunePartial exKeep exGroup exMatches = .ok [[(1, 10)], [(3, 10)], [(1, 10), (3, 11)], [(1, 12)]] ∧
+    RelatedP exKeep exGroup [(1, 10)] [(3, 10)] ∧ domOn exKeep [(1, 10)] [(1, 3), (3, 1)] = [3] ∧
+    Related exKeep exGroup [(1, 10), (3, 11)] [(1, 11), (3, 10)] ∧
+    ¬ RelatedP exKeep exGroup [(1, 10)] [(1, 12)] := by
+  unfold RelatedP Related
+  decide
+
+/-- The hypotheses of `C11.prunePartial_total` / `C11.prunePartial_no_error` hold for that group. -/
+example : (∀ σ ∈ exGroup, ∀ p ∈ exKeep, ∃ q ∈ exKeep, Mapping.get? σ p = some q) ∧ exGroup ≠ [] := by decide
+
+/-- The fall-back: two automorphisms against a bound of one — everything comes back; at a bound of two
+the routine prunes. -/
+example : pruneWithCap 1 exKeep exGroup exMatches = .ok exMatches ∧
+    pruneWithCap 2 exKeep exGroup exMatches = .ok [[(1, 10)], [(3, 10)], [(1, 10), (3, 11)], [(1, 12)]] := by decide
+
+/-- The keys are compared as `repr` strings: under `"10" < "9"` the least image of `{1: 9, 3: 10}` is the
+swapped one; a second match in the same class is dropped all the same. -/
+example : keyP exKeep exGroup [(1, 9), (3, 10)] = .key [(1, 10), (3, 9)] ∧
+    prunePartial exKeep exGroup [[(1, 9), (3, 10)], [(3, 9), (1, 10)]] = .ok [[(1, 9), (3, 10)]] := by decide
+
+/-- The two exceptions of the code are outcomes of the model: an "automorphism" that leaves the pattern
+(`m[s[p]]`, `KeyError`) and an empty group (`min([])`, `ValueError`); neither below two matches, nor above the bound. -/
+example : prunePartial exKeep [[(1, 1), (3, 4)]] [[(1, 10), (3, 11)], [(1, 11), (3, 10)]] = .keyError ∧
+    prunePartial exKeep [] [[(1, 10), (3, 11)], [(1, 11), (3, 10)]] = .valueError ∧
+    prunePartial exKeep [] [[(1, 10), (3, 11)]] = .ok [[(1, 10), (3, 11)]] ∧
+    pruneWithCap 0 exKeep [[(1, 1), (3, 4)]] [[(1, 10), (3, 11)], [(1, 11), (3, 10)]] =
+      .ok [[(1, 10), (3, 11)], [(1, 11), (3, 10)]] := by decide
+
+/-- `C11.prunePartial_reaction_set` / `C11.pruneWithCap_spec` apply to that list (with a glue step that
+renders every match to the same reaction, `GlueAutInvariant` holds). -/
+example : SetEqMod (· = ·)
+    (resultsOf (fun _ : Mapping => [0]) [[(1, 10)], [(3, 10)], [(1, 10), (3, 11)], [(1, 12)]])
+    (resultsOf (fun _ : Mapping => [0]) exMatches) :=
+  C11.prunePartial_reaction_set ⟨fun _ => rfl, fun h => h.symm, fun h1 h2 => h1.trans h2⟩ _ exKeep exGroup
+    (fun _ _ _ _ _ => SetEqMod.refl ⟨fun _ => rfl, fun h => h.symm, fun h1 h2 => h1.trans h2⟩ _) exMatches _ (by decide)
+
+/-- `C11.pruning_clause_partial_model` is non-vacuous: on the Br–Br substrate and the homolysis rule (two
+automorphisms) the routine prunes the two matches of the exhaustive search to one and keeps a partial
+match appended to them. -/
+example :
+    prunePartial (SynKit.Reactor.left SynKit.ReactorLink.exSymRule).ids
+      (auts SynKit.ReactorLink.itsSel SynKit.ReactorLink.exSymRule)
+      (allMonos SynKit.Reactor.monoSel SynKit.ReactorLink.exSymHost (SynKit.Reactor.left SynKit.ReactorLink.exSymRule) ++ [[(10, 1)]])
+    = .ok [[(10, 1), (11, 2)], [(10, 1)]] := by
+  decide
+
+end PartialPruning
 
 /-! ### non-vacuity and witnesses -/
 
